@@ -48,6 +48,7 @@ CLAIMED["C18"] = {
 CLAIMED["C19"] = {
     "text": "Operator typing only: for every operator and every pair of scalar primitives with symbolic payloads, if the static check can_apply_binary_op / can_apply_unary_op accepts the operand kinds then "
             "the dynamic application returns a value or a DATA error (Overflow, DivisionByZero), never an unsupported-operation / incompatible-type error (Kani, full domain, complete). "
+            "The static RESULT kind of nested operators (PreExp::get_type) is compared with evaluation only by a BOUNDED search over about 5600 where-constants (labelled): what the checker accepts never fails with a type-class error. "
             "Soundness of function signatures, scopes, destructuring, unknown functions and undeclared variables is NOT claimed (an induction over the whole parser IL with dyn callbacks).",
     "note": "Trusted: CBMC's model of Rust integers and IEEE doubles. Non-scalar operand kinds (String, Tuple, Graph, Iterable) are not generated.",
     "technique": "Kani full-domain harnesses relating can_apply_* to apply_* on the real scalar implementations",
@@ -146,10 +147,11 @@ CLAIMED["C16"] = {
     "text": "The expression layer of the fluent builder only: it is proved (Verus, structural induction, all trees whose handles belong to the builder) that to_exp translates an index-based builder tree into a language tree "
             "with exactly the same meaning under the language semantics (every variant incl. min/max/and/or lists), and that eval_expr - the evaluator behind BuilderSolution::eval - computes that meaning "
             "(number, variable, abs, not, xor, implies, iff, all binary and unary operators; the Min/Max/And/Or arms use iterator fold/all/any and are assumed arms checked by a BOUNDED search on the real code). "
-            "NOT decided: operator overloads and macros (macro-generated impls, not extractable), into_model (usage marking, default objective), handle -> name -> value resolution in BuilderSolution / LpSolution, "
+            "The overloaded operators (+ - * / for every Expr / Var / f64 / i32 operand pair, unary minus, not, xor, implies, iff, abs) are proved by loop-free Kani harnesses over symbolic handles and payloads (complete) to build exactly the node they stand for, "
+            "operands in source order. NOT decided: the macros, & and | (vector-building), into_model (usage marking, default objective), handle -> name -> value resolution in BuilderSolution / LpSolution, "
             "the pipe runner and RoocSolver entry points, equality of the compiled linear models across front doors (corollary of C01/C02 for equal trees).",
     "note": "Trusted: prelude/f64_layer.rs (floats as exact extended reals), prelude/std_stubs.rs. Rule R33 renames the extracted helper `truthy` (clash with the ghost name).",
-    "technique": "Verus contracts relating sem(to_exp(e)) and eval_expr(e) to a ghost meaning esem(e) of builder trees, on functions extracted from builder/expr.rs; bounded executable-postcondition search for the assumed arms",
+    "technique": "Verus contracts relating sem(to_exp(e)) and eval_expr(e) to a ghost meaning esem(e) of builder trees, on functions extracted from builder/expr.rs; Kani full-domain harnesses for the operator impls; bounded executable-postcondition search for the assumed arms",
     "design_ref": "DESIGN.md §5 C16",
 }
 
